@@ -78,6 +78,7 @@ CONSTANTS
   MaxPrefix = {mp}
   Classes = {{"EXT", "JABS", "JREL", "NAME", "LOCAL", "FREE", "CONST", "NOARG", "RAW"}}
   ByteVals = {by}
+  Scope = "module"
   Emit = {"TRUE" if emit else "FALSE"}
 INVARIANT DecodeModel
 """)
